@@ -1,8 +1,9 @@
 SPEC = {
     "lean_props": "Hive.Props.C03",
     "lean_namespace": "Hive.Serix",
-    "driver": "drv_c03",
-    "harness": "c03",
+    # part 0: serix Encode/Decode against the Lean reference codec; part 1: the Serializer / Deserializer chains of
+    # serializer/serializer.go driven call by call (Hive/Model/SerixPrim.lean); one driver serves both line protocols
+    "parts": [{"driver": "drv_c03", "harness": "c03"}, {"driver": "drv_c03", "harness": "c03/prim"}],
     "theorems": ["C03_canonical", "C03_strict_time_refines", "C03_no_malleability", "C03_layout_uint", "C03_layout_int",
                  "C03_layout_bool", "C03_layout_bool_strict", "C03_layout_bytes", "C03_layout_str", "C03_layout_prefix_width",
                  "C03_layout_slice", "C03_layout_map", "C03_layout_code", "C03_layout_optional", "C03_layout_u256",
